@@ -31,7 +31,16 @@ FAMILIES = [
     ('unicode', ['É', 'ß', 'İ', 'ǅ', 'ＡＢ', 'e\u0301', 'a\u00a0b', '\u200b', 'ﬁ']),
     ('numbers', ['1.50', '007', '1e5', '0x1F', '+1', '1,000', '.5']),
     ('long', ['x' * 300, ('ab ' * 90).strip()]),
+    # round 6: the FULL code-point range of a Python str (written with escapes: this file stays ASCII-clean where it matters)
+    ('surrogate', ['caf\udce9', '\ud800', '\udfff', '\udc00\ud800', 'a\udc80b\udcffc', '\ud83d', '\ufffe', '\uffff', '\ufdd0',
+                   '\U0010ffff', '\U0001fffe']),
+    ('ctrlchars', ['\x00', 'a\x00b', '\x01', '\x08', '\x1b[0m', '\x1f', '\x7f', '\x80', '\x85', '\x9f', '\ufeff', '\ufeffa', '\u2028',
+                 '\u2029', 'a\u2028b', '\x0b', '\x0c', '\x1c', '\xa0', '\u2003', '\u3000', '\u200b\u200c\u200d', '\xad']),
+    ('astral', ['\U0001f600', '\U0001f468\u200d\U0001f469\u200d\U0001f467', '\U00020000', '\U000e0041', 'a\u0300\u0301', '\u0301',
+                'e\u0301\u0323', '\u1100\u1161\u11a8', '\u202e', 'a\u202eb\u202c', '\u200f', '\u2066x\u2069', '\u061c',
+                '\ud55c', '\u0130', '\u1e9e', '\ufb01\ufb02']),
 ]
+COMPACT = ('surrogate', 'ctrlchars', 'astral')
 KINDS = [("'", "'", ''), ('"', '"', ''), ('`', '`', ''), ("@'", "'", 'v'), ('@`', '`', 'v'), ('@@"', '"', 'v')]
 
 
@@ -54,6 +63,8 @@ def payload_texts():
             for k in range(len(KINDS)):
                 if k >= 3 and (i + k) % 3:      # every content in '…' "…" `…`; the variable kinds take every third
                     continue
+                if fam in COMPACT and k != i % 3 and (k < 3 or (i + k) % 6):
+                    continue                    # code-point families: one of '…' "…" `…` per content (rotating), fewer variables
                 l = literal(k, c)
                 if l is not None:
                     lits.append(l)
